@@ -2,7 +2,7 @@
 import ast
 
 from .model import AnalysisError
-from .rules import twin, effect, work, feedback, models, misc, state, fresh, pda_rules, build, dispatch, io as iorules, closed, ka_rules, cyk, bound, order, visitor
+from .rules import twin, effect, work, feedback, models, misc, state, fresh, pda_rules, build, dispatch, io as iorules, closed, ka_rules, cyk, bound, order, visitor, small_models
 
 ALG = ['dfa_algorithms', 'nfa_algorithms', 'pda_algorithms', 'tm_algorithms', 'cfg_algorithms', 'regexp_algorithms']
 
@@ -119,6 +119,7 @@ def check_C02(ctx, rep):
     rep.clauses_decided.append('the single-step function the TM enumerator runs keeps the head on the tape, extends it with blanks and writes before it moves (M6)')
     # ... and the PDA enumerator moves through pda_do_transition, whose stack step is guard + action
     pda_rules.check_stack_step(ctx, rep, P('pda_algorithms.pda_can_pop_push'), P('pda_algorithms.pda_pop_push'))
+    _pda_step_models(ctx, rep)
     rep.clauses_decided.append('the stack step the PDA enumerator runs: guard true exactly when u is epsilon or on top, action pops u / pushes v (M9, finite model)')
     state.check_hidden_state(ctx, rep, modules=['dfa_algorithms', 'nfa_algorithms', 'pda_algorithms', 'tm_algorithms', 'cfg_algorithms', 'regexp_algorithms', 'language_algorithms', 'language_generator'])
     _effect_on(ctx, rep, ENUMERATORS + ['regexp_algorithms.regexp_words_up_to_n', 'language_generator.generate_language', 'language_algorithms.words_of_length_n'], shared=False)
@@ -349,9 +350,17 @@ def check_C09(ctx, rep):
         raise AnalysisError('fewer than 4 pda_pop_push call sites found')
     if pda_rules.check_stack_step(ctx, rep, ctx.prog.func('pda_algorithms.pda_can_pop_push'), ctx.prog.func('pda_algorithms.pda_pop_push')) < 2:
         rep.note('stack step outside the finite model')
+    _pda_step_models(ctx, rep)
     _closed(ctx, rep, ['pda_algorithms.pda_accepts_word'], 1)
     _effect_on(ctx, rep, ['pda_algorithms.pda_epsilon_closure', 'pda_algorithms.pda_do_transition', 'pda_algorithms.pda_accepts_word',
                           'pda_algorithms.pda_pop_push', 'pda_algorithms.pda_can_pop_push'], shared=False)
+
+
+def _pda_step_models(ctx, rep):
+    """the step relation of the PDA search, on a finite model (push, pop, replace, stack-neutral moves)"""
+    small_models.check_pda_step(ctx, rep, ctx.prog.func('pda_algorithms.pda_do_transition'), False)
+    small_models.check_pda_step(ctx, rep, ctx.prog.func('pda_algorithms.pda_epsilon_closure'), True)
+    rep.clauses_decided.append('pda_do_transition and pda_epsilon_closure return exactly the configurations of the definition on a PDA with pushing, popping, replacing and stack-neutral moves (M11, finite model)')
 
 
 def check_C10(ctx, rep):
@@ -422,6 +431,8 @@ def check_C12(ctx, rep):
     build.check_builder_fields(ctx, rep)
     feedback.check_compare_languages(ctx, rep, ctx.prog.func('language_generator.compare_languages'))
     feedback.check_k7(ctx, rep, ctx.prog.func('notebook.check_max_states'))
+    small_models.check_print_feedback(ctx, rep, ctx.prog.func('notebook.print_feedback'))
+    rep.clauses_decided.append('print_feedback prints OK exactly when no message was recorded, whatever the messages say (K11, finite model)')
     if closed.check_checker_targets(ctx, rep, ctx.prog.func('notebook_nfa2dfa.check_nfa_to_dfa_answer')) < 1:
         raise AnalysisError('recomputed-target comparison of the NFA->DFA checker vanished')
     dispatch.check_kind_dispatch(ctx, rep, ctx.prog.func('notebook.check_automaton_accepts_rejects.accepts'), '_accepts_word')
@@ -436,6 +447,7 @@ def check_C12(ctx, rep):
     models.check_tm_step(ctx, rep, ctx.prog.func('tm_algorithms.tm_do_transition'))
     rep.clauses_decided.append('the single-step function with which the language of a submitted TM is computed keeps the head on the tape, extends it with blanks and writes before it moves (M6)')
     pda_rules.check_stack_step(ctx, rep, ctx.prog.func('pda_algorithms.pda_can_pop_push'), ctx.prog.func('pda_algorithms.pda_pop_push'))
+    _pda_step_models(ctx, rep)
     rep.clauses_decided.append('the stack step with which the language of a submitted PDA is computed (M9, finite model)')
 
 
@@ -474,6 +486,12 @@ def check_C13(ctx, rep):
     # the checkers compare the alphabet of the answer with the alphabet of the reference object
     models.check_alphabet_preserved(ctx, rep, F(ctx, 'nfa_algorithms.nfa_to_dfa', 'dfa_algorithms.dfa_complement', 'dfa_algorithms.dfa_reverse', 'dfa_algorithms.dfa_product',
                                                 'dfa_algorithms.dfa_quotient', 'dfa_algorithms.dfa_hopfcroft', 'dfa_algorithms.dfa_from_table'))
+    # the dfa2regexp answer key is extracted through dfa_to_gnfa / gnfa_minimize and then judged by check_dfa2regexp
+    if not ka_rules.check_gnfa_edges_model(ctx, rep, ctx.prog.func('regexp_algorithms.dfa_to_gnfa')):
+        ka_rules.check_gnfa_edges(ctx, rep, ctx.prog.func('regexp_algorithms.dfa_to_gnfa'))
+    if not ka_rules.check_rip_model(ctx, rep, ctx.prog.func('regexp_algorithms.gnfa_minimize')):
+        ka_rules.check_rip_step(ctx, rep, ctx.prog.func('regexp_algorithms.gnfa_minimize'))
+    rep.clauses_decided.append('the regular expression extracted for the dfa2regexp answer key keeps every parallel transition and rips states by R1.R2*.R3 + R4 (M4, finite models)')
     # the `generate` command prints the words of the reference object, the *_language_from_words checkers read them back
     if iorules.check_word_list_tokens(ctx, rep, ctx.prog.func('language_algorithms.parse_word_list')) < 1:
         raise AnalysisError('tokeniser of parse_word_list vanished')
@@ -493,6 +511,8 @@ def check_C16(ctx, rep):
     iorules.check_label_layout(ctx, rep, 'tm')
     iorules.check_regexp_io(ctx, rep)
     visitor.check_visitors(ctx, rep, exact=True)      # "the same printed form": no rewriting while parsing
+    small_models.check_print_simple_roundtrip(ctx, rep, ctx.prog.func('regexp.print_regexp_simple'))
+    rep.clauses_decided.append('the text print_regexp_simple gives for every expression tree of depth <= 3 reads back as that expression (R-IO.rt, finite model with the analyser\'s own reader of regexp_simple.g4)')
     iorules.check_paren_independence(ctx, rep)
     iorules.check_cfg_io(ctx, rep)
     if iorules.check_generated(ctx, rep) < 3:
@@ -518,6 +538,8 @@ def check_C17(ctx, rep):
         raise AnalysisError('fewer than 7 builder state-set arguments found')
     build.check_value_validators(ctx, rep)
     build.check_tm_default_alphabet(ctx, rep)
+    small_models.check_used_states(ctx, rep, ctx.prog.func('automaton.Automaton.used_states'))
+    rep.clauses_decided.append('the states derived when the states line is omitted are the initial states, the final states and both ends of every transition (M10, finite model)')
     if build.check_parse_line(ctx, rep) < 2:
         raise AnalysisError('fewer than 2 keyword stores found in parse_line')
     if build.check_invariants(ctx, rep) < 30:
@@ -581,6 +603,7 @@ def check_C15(ctx, rep):
         work.check_marker_alias(ctx, rep, ctx.prog.func(sp))
     P = ctx.prog.func
     models.check_dfa_sim_column(ctx, rep, P('dfa_algorithms.dfa_simulate_word'))
+    small_models.check_dfa_run(ctx, rep, P('dfa_algorithms.dfa_simulate_word'))
     _closed(ctx, rep, ['nfa_algorithms.nfa_simulate_word', 'pda_algorithms.pda_simulate_word'], 2)
     closed.check_history(ctx, rep, P('nfa_algorithms.nfa_simulate_word'))
     closed.check_history(ctx, rep, P('pda_algorithms.pda_simulate_word'))
@@ -593,6 +616,7 @@ def check_C15(ctx, rep):
     pda_rules.check_find_transition(ctx, rep, P('pda_algorithms.pda_find_transition'))
     # the PDA trace is rebuilt from the sets that pda_do_transition produced: its stack step is part of "genuine"
     pda_rules.check_stack_step(ctx, rep, P('pda_algorithms.pda_can_pop_push'), P('pda_algorithms.pda_pop_push'))
+    _pda_step_models(ctx, rep)
     if work.check_single_expansion(ctx, rep, P('cfg_algorithms.cfg_derive_word')) < 1:
         raise AnalysisError('tree-building loop of cfg_derive_word vanished')
     _effect_on(ctx, rep, ['dfa_algorithms.dfa_simulate_word', 'nfa_algorithms.nfa_simulate_word', 'pda_algorithms.pda_simulate_word',
@@ -612,7 +636,7 @@ def check_C18(ctx, rep):
     if n < 2:
         raise AnalysisError('fewer than 2 state-introduction sites found for C18')
     fresh.check_generator(ctx, rep)
-    if _eps_in(ctx, rep, ['nfa_algorithms.nfa_union', 'nfa_algorithms.nfa_repetition', 'nfa_algorithms.nfa_concatenation']) < 3:
+    if _eps_in(ctx, rep, ['nfa_algorithms.nfa_union', 'nfa_algorithms.nfa_repetition', 'nfa_algorithms.nfa_concatenation']) < 2:
         raise AnalysisError('NFA constructor sites of the building blocks vanished')
     fresh.check_eps_translation(ctx, rep, ctx.prog.func('nfa_algorithms._add_nfa_transitions'))
     # the language of a result is what nfa_accepts_word says about it: its decisions are taken on epsilon-closed sets
@@ -673,6 +697,8 @@ def check_C20(ctx, rep):
     misc.check_symmetry(ctx, rep, ctx.prog.func('dfa_algorithms.dfa_isomorphic'))
     misc.check_symmetry(ctx, rep, ctx.prog.func('dfa_algorithms.dfa_isomorphic1'))
     misc.check_consistency_disjunction(ctx, rep, ctx.prog.func('dfa_algorithms.dfa_isomorphic1'))
+    for sp in ('dfa_algorithms.dfa_isomorphic', 'dfa_algorithms.dfa_isomorphic1'):
+        misc.check_paired_bookkeeping(ctx, rep, ctx.prog.func(sp))
     for sp in ('dfa_algorithms.dfa_isomorphic', 'dfa_algorithms.dfa_isomorphic1'):
         work.check_marker_alias(ctx, rep, ctx.prog.func(sp))
     _effect_on(ctx, rep, ['dfa_algorithms.dfa_isomorphic', 'dfa_algorithms.dfa_isomorphic1'], shared=False)
@@ -771,6 +797,7 @@ def _with_hidden_state(pid, fn):
         fresh.check_epsilon_constants(ctx, rep, sfuncs)
         fresh.check_epsilon_forwarded(ctx, rep, sfuncs)
         fresh.check_word_symbols(ctx, rep, sfuncs)
+        fresh.check_rekey_sites(ctx, rep, sfuncs)
         # C19 speaks about operands, history and hash order, not about which rules an operation keeps: no equality instances there
         sorts.check_grammar_symbol_sorts(ctx, rep, sfuncs, equalities=(pid != 'C19'))
         rep.clauses_decided.append('the declared sorts State / Symbol / Direction (NewTypes of the repository) are respected in memberships, comparisons, set algebra, mapping keys and arguments inside the operations of this property (R-SORT)')
